@@ -210,7 +210,7 @@ func timedOracle(name string, check func(cScenario, cResult) (string, string)) f
 			if len(toks) > 1 && (toks[0] == "client4" || toks[0] == "client6") {
 				func() {
 					defer func() { recover() }()
-					run(parseScenario(toks[0], toks[1:]), []string{"seed"})
+					run(cli_parseScenario(toks[0], toks[1:]), []string{"seed"})
 				}()
 			}
 		}
@@ -218,7 +218,7 @@ func timedOracle(name string, check func(cScenario, cResult) (string, string)) f
 			for _, v6 := range []bool{false, true} {
 				enumTimed(v6)(func(l string) {
 					toks := strings.Fields(l)
-					run(parseScenario(toks[0], toks[1:]), []string{"exhaustive-grid"})
+					run(cli_parseScenario(toks[0], toks[1:]), []string{"exhaustive-grid"})
 				})
 			}
 		}
